@@ -13,6 +13,9 @@ change a verdict, so they are undone here, on the syntax tree, before any rule r
      helpers that cannot be inlined are left as calls (the rules then see an unknown call and stay undecided).
   U  `for x in (a, b): BODY` over a literal tuple/list of at most 4 elements, BODY without break/continue and without
      rebinding x, is unrolled.
+  E  `local.extend([a, b])` with a literal display becomes `local.append(a); local.append(b)`.
+  C  `x = [elt for t in it if c]` whose elt / condition calls a statement helper is written out as the loop it
+     abbreviates (so that the helper can be spliced).
   A  a local bound exactly once, at the top level of the function, to a pure attribute path (`G = model.G`,
      `edges = self._edges`) is replaced by that path at its uses - provided nothing in the function (or in a method of
      the same class it calls through `self`) re-binds the path.
@@ -38,6 +41,99 @@ def load_vocabulary() -> set:
         return set(json.load(open(p))["functions"])
     except Exception:
         return set()
+
+
+def load_locals() -> Dict[str, set]:
+    p = os.path.join(VERIF, "known_functions.json")
+    try:
+        return {k: set(v) for k, v in json.load(open(p)).get("locals", {}).items()}
+    except Exception:
+        return {}
+
+
+PURE_BUILTINS = {"len", "int", "float", "abs", "min", "max", "sum", "tuple", "sorted", "range", "str", "pow", "bool", "set", "list", "frozenset", "round"}
+
+
+def _pure_temp_value(e) -> bool:
+    """an expression whose evaluation has no effect and whose value does not depend on WHEN it is evaluated
+    relative to the single statement that follows (reads only; no calls but a few builtins on such reads)"""
+    for x in ast.walk(e):
+        if isinstance(x, ast.Call):
+            if not (isinstance(x.func, ast.Name) and x.func.id in PURE_BUILTINS) or x.keywords and any(k.arg is None for k in x.keywords):
+                return False
+        if isinstance(x, (ast.Lambda, ast.ListComp, ast.SetComp, ast.DictComp, ast.GeneratorExp, ast.NamedExpr, ast.Await, ast.Yield, ast.YieldFrom, ast.Starred,
+                          ast.List, ast.Dict, ast.Set, ast.JoinedStr)):
+            return False
+    return True
+
+
+def temp_pass(fn: ast.FunctionDef, qual: str, known_locals: Dict[str, set], log: List[str], mod: str) -> bool:
+    """T: a NEW local (not bound in this function on the pinned tree) that holds a pure expression and is read only by
+    the statement immediately following its definition (for `if` / `for`: only by the test / the iterable) is
+    substituted back and its definition dropped."""
+    known = known_locals.get(qual)
+    if known is None and known_locals:
+        known = set()        # a function that does not exist on the pinned tree: all its locals are new
+    if known is None:
+        return False
+    changed_any = False
+    for _ in range(20):
+        changed = False
+        binds: Dict[str, int] = {}
+        for n in _walk_own(fn):
+            if isinstance(n, ast.Name) and isinstance(n.ctx, (ast.Store, ast.Del)):
+                binds[n.id] = binds.get(n.id, 0) + 1
+        params = {a.arg for a in fn.args.posonlyargs + fn.args.args + fn.args.kwonlyargs}
+        blocks = [fn.body]
+        for n in _walk_own(fn):
+            for f in ("body", "orelse", "finalbody"):
+                b = getattr(n, f, None)
+                if isinstance(b, list) and b and isinstance(b[0], ast.stmt) and not isinstance(n, (ast.FunctionDef, ast.AsyncFunctionDef, ast.ClassDef)):
+                    blocks.append(b)
+            if isinstance(n, ast.ExceptHandler):
+                blocks.append(n.body)
+        for blk in blocks:
+            for i, st in enumerate(blk[:-1]):
+                if not (isinstance(st, (ast.Assign, ast.AnnAssign)) and st.value is not None):
+                    continue
+                t = st.targets[0] if isinstance(st, ast.Assign) and len(st.targets) == 1 else (st.target if isinstance(st, ast.AnnAssign) else None)
+                if not isinstance(t, ast.Name) or t.id in known or t.id in params or binds.get(t.id) != 1 or not _pure_temp_value(st.value):
+                    continue
+                nxt = blk[i + 1]
+                if isinstance(nxt, (ast.Assign, ast.AnnAssign, ast.AugAssign, ast.Expr, ast.Return)):
+                    header = [nxt]
+                elif isinstance(nxt, ast.If):
+                    header = [nxt.test]
+                elif isinstance(nxt, ast.For):
+                    header = [nxt.iter]
+                else:
+                    continue
+                all_uses = [n for n in ast.walk(fn) if isinstance(n, ast.Name) and n.id == t.id and isinstance(n.ctx, ast.Load)]
+                hdr_uses = [n for h in header for n in ast.walk(h) if isinstance(n, ast.Name) and n.id == t.id and isinstance(n.ctx, ast.Load)]
+                if not all_uses or len(all_uses) != len(hdr_uses):
+                    continue
+                # not inside a lambda / comprehension of the header (evaluated later / repeatedly)
+                deferred = [n for h in header for x in ast.walk(h) if isinstance(x, (ast.Lambda, ast.ListComp, ast.SetComp, ast.DictComp, ast.GeneratorExp))
+                            for n in ast.walk(x) if isinstance(n, ast.Name) and n.id == t.id]
+                if deferred and any(isinstance(x, ast.Call) for x in ast.walk(st.value)):
+                    continue
+                sub = _Subst({t.id: st.value}, {})
+                if isinstance(nxt, ast.If):
+                    nxt.test = sub.visit(nxt.test)
+                elif isinstance(nxt, ast.For):
+                    nxt.iter = sub.visit(nxt.iter)
+                else:
+                    sub.visit(nxt)
+                ast.fix_missing_locations(nxt)
+                blk.pop(i)
+                log.append(f"T {mod}:{st.lineno} new temporary `{t.id}` substituted into the following statement")
+                changed = changed_any = True
+                break
+            if changed:
+                break
+        if not changed:
+            break
+    return changed_any
 
 
 # ----------------------------------------------------------------------------- helper table
@@ -535,6 +631,17 @@ class Normalizer:
                 self.log.append(f"U {mod}:{s.lineno} unrolled `for {s.target.id} in {ast.unparse(s.iter)}`")
                 changed = True
                 continue
+            # E: local.extend([a, b]) with a literal display is the sequence of appends local.append(a); local.append(b)
+            if isinstance(s, ast.Expr) and isinstance(s.value, ast.Call) and isinstance(s.value.func, ast.Attribute) and s.value.func.attr == "extend" \
+                    and isinstance(s.value.func.value, ast.Name) and len(s.value.args) == 1 and not s.value.keywords \
+                    and isinstance(s.value.args[0], (ast.List, ast.Tuple)) and 1 <= len(s.value.args[0].elts) <= 6 \
+                    and not any(isinstance(e, ast.Starred) for e in s.value.args[0].elts):
+                for e in s.value.args[0].elts:
+                    st = ast.Expr(value=ast.Call(func=ast.Attribute(value=ast.Name(id=s.value.func.value.id, ctx=ast.Load()), attr="append", ctx=ast.Load()), args=[e], keywords=[]))
+                    out.append(ast.fix_missing_locations(ast.copy_location(st, s)))
+                self.log.append(f"E {mod}:{s.lineno} `{s.value.func.value.id}.extend([...])` written out as appends")
+                changed = True
+                continue
             # C: a list comprehension that calls a statement helper is written out as the loop it abbreviates, so
             # that the helper can be spliced into the loop body in the next round
             exp = self._expand_comprehension(s, mod, cls, self_name)
@@ -599,6 +706,10 @@ class Normalizer:
                 if isinstance(x, ast.Call):
                     r = self.resolve(x, mod, cls, self_name)
                     if r is not None and self.expr_form(r[0]) is None:
+                        hit = True
+                    # an element computed by a method of the object or by popping a container is an accumulation
+                    # loop in disguise (the pinned tree writes these as loops)
+                    if isinstance(x.func, ast.Attribute) and ((isinstance(x.func.value, ast.Name) and x.func.value.id == self_name and self_name) or x.func.attr == "pop"):
                         hit = True
         if not hit:
             return None
@@ -745,14 +856,25 @@ class Normalizer:
                                 any_change |= self._nested(c, mod, st.name, self_name)
             if not any_change:
                 break
+        known_locals = load_locals()
+
+        def each(fn, qual, cls_node):
+            alias_pass(fn, cls_node, self.log, mod)
+            temp_pass(fn, qual, known_locals, self.log, mod)
+            for n in ast.iter_child_nodes(fn):
+                pass
+            for n in _walk_own(fn):
+                if isinstance(n, ast.FunctionDef):
+                    each(n, f"{qual}.{n.name}", None)
         for mod, tree in self.trees.items():
             for st in tree.body:
                 if isinstance(st, ast.FunctionDef):
-                    alias_pass(st, None, self.log, mod)
+                    each(st, st.name, None)
                 elif isinstance(st, ast.ClassDef):
                     for c in st.body:
                         if isinstance(c, ast.FunctionDef):
-                            alias_pass(c, st, self.log, mod)
+                            key = c.name + ".setter" if any(ast.unparse(d).endswith(".setter") for d in c.decorator_list) else c.name
+                            each(c, f"{st.name}.{key}", st)
 
     def _nested(self, fn, mod, cls, self_name) -> bool:
         ch_any = False
